@@ -336,6 +336,24 @@ func runSubject(c driver.Case) driver.Result {
 			}
 		}
 	}
+	// rule (iii): a subscriber that arrives after the terminal is replayed, at most, values that were issued
+	// before that terminal - a late notification leaves no trace in what the subject hands out later
+	if termSeen && len(recs) == 2 {
+		before := map[string]bool{}
+		for k, n := range sc {
+			if n.K != rec.Next {
+				break
+			}
+			before[fmt.Sprintf("p#%d", k)] = true
+		}
+		for _, e := range recs[1].Events() {
+			if e.Kind == rec.Next && !before[e.Item] {
+				res.Verdict, res.Key = driver.Violated, "C01/subject-"+kind+"/late-notification-delivered"
+				res.Msg = fmt.Sprintf("%s subject fed [%s]: a subscriber arriving afterwards received %s (context item %q), which is none of the values issued before the terminal; its trace: [%s]", kind, sc, e.String(), e.Item, recs[1].TraceString())
+				return res
+			}
+		}
+	}
 	res.Events = total + int64(len(afterTerm))
 	res.Nontrivial = res.Events > 0
 	res.Sig = kind + "→" + r1.TraceString()
